@@ -160,7 +160,11 @@ def check(run):
             else:
                 pipe = RecordingPipe()
                 try:
-                    PA.unpack_to_pipe(fns, fields, pipe=pipe, verbose=False)
+                    import pathlib
+
+                    a_fns = [pathlib.Path(f) for f in fns] if k % 4 == 1 else (tuple(fns) if k % 4 == 2 else fns)
+                    a_fields = tuple(fields) if k % 3 == 1 else fields
+                    PA.unpack_to_pipe(a_fns, a_fields, pipe=pipe, verbose=False)
                 except Exception as e:
                     run.violation('pipe-raises-' + type(e).__name__, dict(error=str(e)[:200], **desc))
                 else:
